@@ -198,6 +198,15 @@ func c15Run(w *core.W, q *dns.Msg, envs [][]*model.Rec, tsig bool, f c15Fault, r
 				wire[p] ^= 0x01
 			}
 		}
+		if len(wire) > 65535 {
+			// not an envelope any sender could frame: the harness drew a record too large for one message
+			w.Count("envelopes_over_65535_skipped", 1)
+			cl.Close()
+			sv.Close()
+			for range ch {
+			}
+			return c15Result{skipped: true}
+		}
 		signed[i] = wire
 	}
 	for _, i := range order {
@@ -402,6 +411,9 @@ func c15Good(w *core.W, s c15Stream, zone model.Name, comp uint64, tsig bool, id
 		f.kind = "extra-after-end"
 	}
 	res := c15Run(w, s.query(zone, id), envs, tsig, f, 0)
+	if res.skipped {
+		return
+	}
 	w.Eval(1)
 	w.Count("transfers_good", 1)
 	w.Cover("stream_kind", s.kind)
